@@ -3,7 +3,7 @@
 # RENAME=1: additionally rename the locals of every function (upsa/alpha.py) after applying the patch
 P=$(realpath $1); shift
 S=$(mktemp -d -p ${TMPDIR:-/tmp} upsa_try_XXXXXX)
-cp -r /repo/unified_planning $S/ && patch -p1 -s -d $S -i $P || { echo APPLY-FAILED; rm -rf $S; exit 9; }
+cp -r /repo/unified_planning $S/ && patch -p1 -s -F0 -d $S -i $P || { echo APPLY-FAILED; rm -rf $S; exit 9; }
 if [ -n "$RENAME" ]; then
 /venv/bin/python - $S <<'PY'
 import os, sys
